@@ -122,8 +122,18 @@ def reshape_failure_cases(
             .reset_index(drop=True)
         )
     elif is_table(failure_cases):
+        index = failure_cases.index
+        # repeated or null index labels cannot be unstacked: unstack the row
+        # positions instead and map them back to the labels
+        by_position = index.has_duplicates or index.hasnans
+        if by_position:
+            failure_cases = failure_cases.reset_index(drop=True)
         reshaped_failure_cases = failure_cases.unstack().reset_index()
         reshaped_failure_cases.columns = ["column", "index", "failure_case"]  # type: ignore[call-overload,assignment]  # noqa
+        if by_position:
+            reshaped_failure_cases["index"] = index.take(
+                reshaped_failure_cases["index"].to_numpy()
+            )
     elif is_field(failure_cases):
         reshaped_failure_cases = failure_cases.rename("failure_case")  # type: ignore[call-overload]
         reshaped_failure_cases.index.name = "index"
